@@ -31,6 +31,26 @@ func (ec *evalCtx) fail(format string, args ...any) {
 	ec.fc.refuse("specification error: "+format, args...)
 }
 
+// missingCallPanic aborts the evaluation of a clause that needs (a field of) the
+// result of a call site that does not exist; the clause is then unprovable.
+type missingCallPanic struct{ key string }
+
+// booleanOrUnprovable evaluates a proof goal; a goal that depends on the result
+// of a call that is not there becomes false (a failed obligation), not an error.
+func (ec *evalCtx) booleanOrUnprovable(e spec.Expr) (t *smt.Term) {
+	ec.fc.missingCall = ""
+	defer func() {
+		if r := recover(); r != nil {
+			if _, ok := r.(missingCallPanic); ok {
+				t = smt.False
+				return
+			}
+			panic(r)
+		}
+	}()
+	return ec.boolean(e)
+}
+
 func (ec *evalCtx) boolean(e spec.Expr) *smt.Term {
 	v := ec.eval(e)
 	if v.T == nil || v.T.Sort != smt.Bool {
@@ -340,6 +360,11 @@ func (ec *evalCtx) field(base Val, name string, e spec.Expr) Val {
 		ec.fail("no field %s in %s", name, e)
 	}
 	if base.GoT == nil {
+		if ec.fc.missingCall != "" {
+			// the clause reads a field of the result of a call that no longer exists on any path:
+			// nothing can be proved about it
+			panic(missingCallPanic{ec.fc.missingCall})
+		}
 		ec.fail("field access on a value without Go type: %s", e)
 	}
 	t := base.GoT
@@ -614,6 +639,16 @@ func (ec *evalCtx) callSpec(x *spec.Call) Val {
 			}
 			return Val{T: smt.False}
 		}
+	case "boxed":
+		// boxed(x): the pointer held by the interface value x when x was built, at this
+		// call site, from a pointer of a view type (type B A); otherwise x itself
+		v := ec.eval(x.Args[0])
+		if v.T != nil {
+			if bi, ok := fc.boxes[v.T.String()]; ok && bi.v.T != nil && (bi.v.Conv || fc.viewPointer(bi.ty)) {
+				return bi.v
+			}
+		}
+		return v
 	case "before":
 		// before(e): e in the state just before the loop under contract was entered
 		li := fc.specLoop
@@ -668,6 +703,7 @@ func (ec *evalCtx) callSpec(x *spec.Call) Val {
 		}
 		v, ok := fc.callRes[key]
 		if !ok {
+			fc.missingCall = key
 			// no such call on any path to this point: the value is irrelevant (guard with called(...))
 			if x.Fun == "callresb" {
 				return Val{T: smt.False}
@@ -1067,7 +1103,7 @@ func (ec *evalCtx) fieldLocations(e spec.Expr) (keys []string, ref *smt.Term, so
 		// target(x): every field of the object x refers to, whatever its dynamic type
 		// (the target of a decoder: json.Unmarshal(data, x))
 		ref := ec.scalar(ec.eval(c.Args[0]), e)
-		if bi, ok := ec.fc.boxes[ref.String()]; ok && bi.v.Conv && bi.v.T != nil {
+		if bi, ok := ec.fc.boxes[ref.String()]; ok && (bi.v.Conv || ec.fc.viewPointer(bi.ty)) && bi.v.T != nil {
 			// a pointer converted to another named type before boxing: the object is the pointer's
 			ref = bi.v.T
 		}
